@@ -512,3 +512,19 @@ func decoderElem(fn *ssa.Function) string {
 	}
 	return types.TypeString(ptr.Elem(), func(p *types.Package) string { return p.Name() })
 }
+
+// singleStoreTo: the one store into a local cell (nil if there are none or several).
+func singleStoreTo(cell *ssa.Alloc) *ssa.Store {
+	var out *ssa.Store
+	if refs := cell.Referrers(); refs != nil {
+		for _, r := range *refs {
+			if st, ok := r.(*ssa.Store); ok && st.Addr == ssa.Value(cell) {
+				if out != nil {
+					return nil
+				}
+				out = st
+			}
+		}
+	}
+	return out
+}
